@@ -26,6 +26,10 @@ CLAIMS["C03"] = ("other", "inter-procedural error-purity summaries (path enumera
   "Decides the all-or-nothing clause structurally on every CFG path (no bookkeeping write or successful seat-manager change before any error exit), plus sentinel coverage, paired updates, capacity guards and writer sets. Two genuine partial-update defects that are not small to repair are recorded in known_findings.json; two were repaired by fix: commits. Agreement of the three views after arbitrary histories is not decided.",
   "DESIGN.md §4 C03, §5 F3/F4/F4b/F12", TRUST)
 
+CLAIMS["C16"] = ("other", "inter-procedural must-hold lockset over synchronous same-instance call edges; entry-lock idiom; re-entrancy check over the full resolved synchronous call graph (interfaces, func values with one level of parameter context, dependency callbacks)",
+  "Decides the locking discipline the statement relies on for every path and caller, independent of the scheduler: mutex held at every membership write / seat-manager change / hand action, idiomatic critical sections, seat-manager writes under its write lock, no re-entrant acquisition. It does not decide linearizability of histories.",
+  "DESIGN.md §4 C16", TRUST)
+
 REASONS = {}
 
 checks = []
